@@ -921,6 +921,13 @@ def _cell_xml(coord, formula=None, value=None, array_ref=None, has_formula=False
     return f'<c r="{coord}"{tattr}>{f}{vx}</c>'
 
 
+def unstorable(v):
+    """a formula result no workbook file gives back as it is: nothing / the empty text (both
+    read as "no stored result"), nan and the infinities (not numbers of the file format)"""
+    return v is None or v == '' or (isinstance(v, float) and (v != v or v in (
+        float('inf'), float('-inf'))))
+
+
 def to_xlsx(spec, path, stored, overrides=None):
     """write a real .xlsx whose formula cells carry `stored[addr]` as results"""
     by_sheet = {s: {} for s in spec['sheets']}
